@@ -17,6 +17,14 @@ def mc_gran(years, days):
     return {"MC_DateGranularity.cfg": cfg}
 
 
+def mc_gran_named(name, years, days):
+    """a second instance of the granularity machine under another module name (other years)"""
+    import os
+    src = open(os.path.join(common.SPEC, "mc", "MC_DateGranularity.tla")).read().replace("MODULE MC_DateGranularity", "MODULE " + name)
+    cfg = list(mc_gran(years, days).values())[0]
+    return {name + ".tla": src, name + ".cfg": cfg}
+
+
 def run(ctx):
     quick = ctx.tier == "quick"
     ctx.prepare_spec()
@@ -27,6 +35,10 @@ def run(ctx):
     ctx.build_vh()
     jobs = [("MC_DateCompare", mc_compare(10 if quick else 13)),
             ("MC_DateGranularity", mc_gran([1999, 2000, 2001], [1, 15]) if quick else mc_gran([1899, 1900, 1901, 2000], [1, 2, 15, 28]))]
+    # century years that are leap years in the Julian calendar only (before 1582) and the first years of the calendar
+    jobs.append(("MC_DateGranularityOld", mc_gran_named("MC_DateGranularityOld", [1499, 1500, 1501] if quick else [99, 100, 101, 1500], [1, 28] if quick else [1, 15, 28])))
+    if not quick:
+        jobs.append(("MC_DateGranularityFirst", mc_gran_named("MC_DateGranularityFirst", [1, 2, 4], [1, 2, 28])))
     for name, files in jobs:
         res, mism = common.emit_and_replay(ctx, name, files, ["datecompare", "replay"], timeout=1800)
         for mm in mism:
